@@ -34,16 +34,32 @@ func (h *uSentPacketHandler) PeekPacketNumber(encLevel protocol.EncryptionLevel)
 		if idx >= len(h.initialPacketNumberLengths) {
 			idx = len(h.initialPacketNumberLengths) - 1
 		}
-		return pn, h.initialPacketNumberLengths[idx]
+		return pn, decodablePacketNumberLen(pn, pnSpace.largestAcked, h.initialPacketNumberLengths[idx])
 	}
 
 	// [UQUIC] Fall back to single-value override for all Initial packets.
 	if encLevel == protocol.EncryptionInitial && h.initialPacketNumberLength != 0 {
-		return pn, h.initialPacketNumberLength
+		return pn, decodablePacketNumberLen(pn, pnSpace.largestAcked, h.initialPacketNumberLength)
 	}
 	// [/UQUIC]
 
 	return pn, protocol.PacketNumberLengthForHeader(pn, pnSpace.largestAcked)
+}
+
+// decodablePacketNumberLen returns pnLen, unless a peer that has processed nothing beyond
+// what it acknowledged could not recover pn from a pnLen-byte encoding (RFC 9000, Appendix
+// A.3): then it returns the shortest longer encoding that it can recover. A spec'd length is
+// a fingerprinting request, but an Initial whose packet number decodes to a different value
+// fails AEAD at every server, so e.g. InitPacketNumber 256 with a 1-byte length (which
+// truncates to 0x00) is sent with 2 bytes instead. [UQUIC]
+func decodablePacketNumberLen(pn, largestAcked protocol.PacketNumber, pnLen protocol.PacketNumberLen) protocol.PacketNumberLen {
+	for ; pnLen < protocol.PacketNumberLen4; pnLen++ {
+		truncated := pn & (1<<(8*pnLen) - 1)
+		if protocol.DecodePacketNumber(pnLen, largestAcked, truncated) == pn {
+			break
+		}
+	}
+	return pnLen
 }
 
 // SetInitialPacketNumberLength sets a single PN encoding length used for ALL Initial packets.
